@@ -38,6 +38,7 @@
 #include "testkeys/OCSP/responses/OCSP_256_EC_GOOD.h"
 #include "testkeys/OCSP/responses/OCSP_256_EC_REVOKED.h"
 #include "assets/pathlen_chain.h"
+#include "assets/pem_bundle.h"
 #include "keys.h"
 
 #define KM(c, k, a) { c, sizeof c, k, sizeof k, a, sizeof a }
@@ -77,4 +78,10 @@ int vsim_ocsp_blob(int which, const unsigned char **p, size_t *n)
     if (which == 0) { *p = ocsp_256_ec_good; *n = sizeof ocsp_256_ec_good; return 1; }
     if (which == 1) { *p = ocsp_256_ec_revoked; *n = sizeof ocsp_256_ec_revoked; return 1; }
     return 0;
+}
+
+/* PEM identity bundle (two certificates) + PEM key */
+void vsim_pem_bundle(const unsigned char **certs, size_t *certsLen, const unsigned char **key, size_t *keyLen)
+{
+    *certs = VSIM_PEM_BUNDLE; *certsLen = sizeof VSIM_PEM_BUNDLE - 1; *key = VSIM_PEM_KEY; *keyLen = sizeof VSIM_PEM_KEY - 1;
 }
